@@ -159,7 +159,8 @@ def write_config(r):
     cfg = {
         'compress': r.random() < .5,
         'writer': r.choice(['to_hdf5', 'to_hdf5', 'save_table',
-                            'save_table_default']),
+                            'save_table_default', 'save_table_handle',
+                            'save_table_pathlib']),
         'date': r.choice(['given', 'given', 'omitted']),
         'group_md': r.random() < .4,
         'table_id': r.choice([None, None, 'tbl-1', 'таблица "x"/7']),
@@ -254,6 +255,13 @@ def write(ctx, t, cfg, path):
             t.to_hdf5(f, cfg['generated_by'], **kw)
     elif cfg['writer'] == 'save_table':
         ctx.biom.save_table(t, path, generated_by=cfg['generated_by'], **kw)
+    elif cfg['writer'] == 'save_table_handle':
+        with h5py.File(path, 'w') as f:
+            ctx.biom.save_table(t, f, generated_by=cfg['generated_by'], **kw)
+    elif cfg['writer'] == 'save_table_pathlib':
+        import pathlib
+        ctx.biom.save_table(t, pathlib.Path(path),
+                            generated_by=cfg['generated_by'], **kw)
     else:
         ctx.biom.save_table(t, path)
     t1 = datetime.datetime.now()
